@@ -99,6 +99,9 @@ def lazyEnc (B P n free : Nat) (h : Nat → Nat) (s : Nat) : M (Option (Nat × N
         let p := wsub B right left
         if p = 0 then .error (.panic "lazy.enc.expect") else .ok (some (left, p))
 
+/-- `next_symbol.wrapping_sub(1)` on `usize` (64 bit) -/
+def usizePred (j : Nat) : Nat := if j = 0 then 2 ^ 64 - 1 else j - 1
+
 /-- second loop of `quantile_function`: `j` = `next_symbol`, `left` = `left_cumulative`;
     `fuel` = number of items left in the iterator (`n - j`) -/
 def lazyDecLoop (B P n free : Nat) (h : Nat → Nat) (q : Nat) :
@@ -107,21 +110,21 @@ def lazyDecLoop (B P n free : Nat) (h : Nat → Nat) (q : Nat) :
     -- iterator exhausted: the last symbol gets the remaining mass
     let p := wsub B (wrappingPow2 B P) left
     if p = 0 then .error (.panic "lazy.dec.expect_last")
-    else .ok (wsub 64 j 1, left, p)
+    else .ok (usizePred j, left, p)
   | fuel + 1, j, left =>
     match cadd "lazy.dec.right" B (min (h j) free) (narrow B j) with
     | .error f => .error f
     | .ok right =>
       if right > q then
         let p := wsub B right left
-        if p = 0 then .error (.panic "lazy.dec.expect") else .ok (wsub 64 j 1, left, p)
+        if p = 0 then .error (.panic "lazy.dec.expect") else .ok (usizePred j, left, p)
       else lazyDecLoop B P n free h q fuel (j + 1) right
 
 /-- `DecoderModel::quantile_function` of the lazy model after its float-only skip phase, which
     consumed `k0` items (`1 ≤ k0 ≤ n`; `k0` is computed by the float replica, and is a parameter
     subject to the soundness hypothesis TB-F2 in the theorems) -/
 def lazyDec (B P n free : Nat) (h : Nat → Nat) (k0 q : Nat) : M (Nat × Nat × Nat) :=
-  match cadd "lazy.dec.left" B (min (h (k0 - 1)) free) (narrow B (wsub 64 k0 1)) with
+  match cadd "lazy.dec.left" B (min (h (k0 - 1)) free) (narrow B (usizePred k0)) with
   | .error f => .error f
   | .ok left => lazyDecLoop B P n free h q (n - k0) k0 left
 
